@@ -25,6 +25,11 @@ CLAIMS = {
         "Trusted: symx interception layer incl. the token <-> proxy mapping around the C parser (read_csv), z3. Float columns carry concrete sample values (their %.6g text is produced by the real to_csv); pysam VCF is C18.",
         "DESIGN.md 4/C08",
     ),
+    "C09": (
+        "The real region_depth_count (with its read filter) runs on <= 2 stub reads of <= 3 aligned positions with symbolic start, flags, MAPQ, min_mapq and a symbolic bin (zero-width and reversed reachable): z3 proves depth * length = number of aligned positions of counted reads inside the bin, log2 = log2(depth) or (0, -20), the row's coordinates and name, and the read count. interval_coverages_count (serial) keeps one row per bin with its coordinates and name in chromosome order; interval_coverages_pileup is run on bedcov's 3/4/6-column output text with symbolic coordinates and base counts through the real column detection and read_csv: depth = base count / length, zero-width bins 0, log2 rule, names; to_chunks with a symbolic chunk size returns the regions file minus comment lines in chunks of exactly chunk_size lines (last one shorter, none empty).",
+        "Trusted: symx interception layer, z3; stubs: read objects / AlignmentFile.fetch, pysam.bedcov's output format, in-memory regions file. Not decided: samtools bedcov itself (hence pileup = count), BAM decoding, real process pools.",
+        "DESIGN.md 4/C09",
+    ),
     "C12": (
         "The real do_target (zero-width filter, --split through subdivide, label shortening) and do_antitarget (drop_noncanonical_contigs / guessed extents, resize_ranges(-500), subtract of the padded targets, subdivide) run on 1-2 baits and one accessible region with symbolic coordinates (overlap, nesting, abutting, zero width reachable) plus concrete untargeted canonical / non-canonical contigs. z3 proves per path: target bins cover exactly the union of the non-empty baits, are disjoint, ordered, cut into max(1, round(L/avg)) equal bins; antitargets are named Antitarget, lie inside the accessible region shrunk by 500 and outside every target padded by 500 (one universally quantified position), are pairwise disjoint, have size in [min, 1.5 avg], and cover every window of off-target accessible sequence of at least the minimum size; untargeted canonical contigs are binned, non-canonical ones skipped.",
         "Trusted: symx interception layer, z3. Average/minimum sizes are concrete ({(1000,300),(700,200)} with coordinates <= 6000); annotation files are not exercised.",
